@@ -323,6 +323,10 @@ func cmdCheck(args []string) int {
 		jobs = n
 	}
 	dischargeAll(items, scratch, timeout, jobs)
+	thoroughCross, thoroughTeeth = nil, nil
+	if *tier == "thorough" && *only == "" {
+		thoroughCross = crossCheck(items, scratch, 20000, jobs)
+	}
 	solveWall := time.Since(solveStart).Seconds()
 
 	// ------------------------------------------------------------ verdicts
@@ -381,6 +385,9 @@ func cmdCheck(args []string) int {
 	}
 	exit := 0
 	outDir := filepath.Join(*verif, "out", "replays")
+	if d := os.Getenv("GOVC_REPLAY_DIR"); d != "" {
+		outDir = d // self-tests on mutated scratch trees keep their replay files apart
+	}
 	os.MkdirAll(outDir, 0o755)
 	violations := 0
 	for _, name := range bindingFailures {
@@ -464,6 +471,19 @@ func cmdCheck(args []string) int {
 	if boundedInfra {
 		return 2
 	}
+	if thoroughCross != nil && len(thoroughCross.Disagreements) > 0 {
+		for _, d := range thoroughCross.Disagreements {
+			fmt.Fprintln(os.Stderr, "govc: SOLVER DISAGREEMENT:", d)
+		}
+		writeEvidence(*verif, ps, *tier, seed, nObl, nDis, nCover, funcsUnderContract, bySolver, samples, vcs, float64(solverMs)/1000, time.Since(start).Seconds(), violations, known, loadMs, genMs, solveWall, true)
+		return 2
+	}
+	if *tier == "thorough" && *only == "" && os.Getenv("GOVC_NO_TEETH") == "" {
+		thoroughTeeth = runTeeth(*verif, *repo, ps.ID)
+		for _, m := range thoroughTeeth.Missed {
+			fmt.Fprintf(os.Stderr, "govc: WARNING: must-fail mutant not caught (a contract lost strength; the verdict about this tree is unaffected): %s\n", m)
+		}
+	}
 	if nObl == 0 && len(bindingFailures) == 0 && nBounded == 0 {
 		fmt.Fprintln(os.Stderr, "govc: zero obligations generated; vacuity guard failed")
 		return 2
@@ -538,6 +558,8 @@ func writeEvidence(verif string, ps *PropSpec, tier string, seed, nObl, nDis, nC
 			"translator_warnings":      keys(warnings),
 			"bounded_checks":           ps.Bounded,
 			"bounded_runs":             boundedResults,
+			"thorough_cross_check":     thoroughCross,
+			"thorough_teeth_run":       thoroughTeeth,
 			"vacuity_guard_failed":     vacuous,
 		},
 		"assumptions": as,
